@@ -335,8 +335,12 @@ func init() {
 			if e.verdict(label, e.siteOf(th), Not(c)) {
 				e.trace = append(e.trace, "F:"+label)
 				// continue on the side where the assertion holds
+				if c.IsFalse() {
+					// a concrete failure: keep going like the native run does, so that later assertions are seen too
+					return nil
+				}
 				e.assume(c)
-				if c.IsFalse() || !e.feasibleNow() {
+				if !e.feasibleNow() {
 					panic(pathEnd{kind: "violation", msg: label})
 				}
 			}
@@ -415,6 +419,7 @@ func init() {
 				}
 			}
 		},
+		"H.vSpins": func(e *Exec, th *Thread, a []Value) Value { return IntC(int64(e.spins)) },
 		"H.vThreadsLive": func(e *Exec, th *Thread, a []Value) Value {
 			n := 0
 			for _, t := range e.threads {
